@@ -90,11 +90,11 @@ class PathCtx:
                     self.pc.append(x)
                     (self.lemmas if note.startswith("lemma") else self.assumed).append(x)
 
-    def prove(self, name: str, cond, **info):
+    def prove(self, _clause: str, cond, **info):
         c = as_bool_term(cond)
         info = dict(info)
         info["_lemmas"] = tuple(self.lemmas)
-        self.obligations.append((name, tuple(self.pc), c, info))
+        self.obligations.append((_clause, tuple(self.pc), c, info))
 
 
 def as_bool_term(v) -> T:
